@@ -204,6 +204,10 @@ enum SeqVm<'a> {
     NoData(rbpf::EbpfVmNoData<'a>),
 }
 
+fn helper_other(a: u64, _b: u64, _c: u64, _d: u64, _e: u64) -> u64 {
+    a.wrapping_add(0x7700)
+}
+
 fn eval_seq(v: &Value) -> String {
     let kind = v["vm"].as_str().unwrap_or("raw").to_string();
     let progs: Vec<Vec<u8>> = v["progs"].as_array().map(|a| a.iter().map(|x| unhexs(x.as_str().unwrap_or(""))).collect()).unwrap_or_default();
@@ -249,6 +253,15 @@ fn eval_seq(v: &Value) -> String {
                         SeqVm::Mbuff(x) => x.register_helper(1, helper_gather).is_ok(),
                         SeqVm::Fixed(x) => x.register_helper(1, helper_gather).is_ok(),
                         SeqVm::NoData(x) => x.register_helper(1, helper_gather).is_ok(),
+                    };
+                    if r { "ok".into() } else { "err".into() }
+                }
+                "helper2" => {
+                    let r = match vm.as_mut().unwrap() {
+                        SeqVm::Raw(x) => x.register_helper(1, helper_other).is_ok(),
+                        SeqVm::Mbuff(x) => x.register_helper(1, helper_other).is_ok(),
+                        SeqVm::Fixed(x) => x.register_helper(1, helper_other).is_ok(),
+                        SeqVm::NoData(x) => x.register_helper(1, helper_other).is_ok(),
                     };
                     if r { "ok".into() } else { "err".into() }
                 }
